@@ -2158,3 +2158,26 @@ Proof.
   - now apply lex_sentence_conforms.
   - now apply lex_task_conforms.
 Qed.
+
+(* ------------------------------------------------------------------------------------------ *)
+(* from "enough fuel" to the executable recogniser: with ANY amount of fuel the answer is the    *)
+(* value or "out of fuel", never a rejection and never a different tree                          *)
+(* ------------------------------------------------------------------------------------------ *)
+Lemma readme_parse_fuel ucls G m M input :
+  (m <= M)%nat -> readme_parse_with ucls G m input <> RNoFuel ->
+  readme_parse_with ucls G M input = readme_parse_with ucls G m input.
+Proof.
+  unfold readme_parse_with, parse_with. intros Hle Hn.
+  destruct (run ucls G (length input) m (PSeq PSoi (PSeq (PRef (ss "narsese")) PEoi)) NonAtomic input) eqn:E1;
+    try (rewrite (run_mono ucls G (length input) m M _ _ _ _ Hle E1) by congruence; reflexivity).
+Qed.
+
+Lemma enough_fuel_any_fuel ucls G input v :
+  (exists n, forall m, (n <= m)%nat -> readme_parse_with ucls G m input = RValue v) ->
+  forall m, readme_parse_with ucls G m input = RValue v \/ readme_parse_with ucls G m input = RNoFuel.
+Proof.
+  intros [n H] m. destruct (readme_parse_with ucls G m input) eqn:E1; try (now right); left;
+    rewrite <- (H (Nat.max n m) (Nat.le_max_l _ _));
+    rewrite (readme_parse_fuel ucls G m (Nat.max n m) input (Nat.le_max_r _ _)) by (rewrite E1; discriminate);
+    now rewrite E1.
+Qed.
